@@ -16,7 +16,7 @@ func init() {
 		ID:   "C15",
 		Rule: "one case = (codec, garbage prefix of 0-2 strings, frame A shape, loss subset of A's packets, frame B shape); the delivered packets of A then all packets of B go into one depacketizer and B's outputs are compared with a fresh depacketizer that sees B only; non-trivial = at least one packet of A was lost and at least one delivered",
 		Assumptions: []string{
-			"H264 frames A: 12 shapes of up to 10 packets mixing single NAL units, STAP-A and FU-A trains (reference encoder); frames B: single / STAP-A / FU-A train / FU-A train + single / FU-A trains whose start, middle or end fragment carries no payload octets, and a single FU-A packet with both S and E set (also among the A shapes); Annex-B and AVC output",
+			"H264 frames A: 12 shapes of up to 10 packets mixing single NAL units, STAP-A and FU-A trains (reference encoder); frames B: the damaged frame A itself sent again byte for byte / single / STAP-A / FU-A train / FU-A train + single / FU-A trains whose start, middle or end fragment carries no payload octets, and a single FU-A packet with both S and E set (also among the A shapes); Annex-B and AVC output",
 			"AV1 frames A: 8 OBU sequences packetized by AV1Payloader at small MTUs into up to 10 packets with Z/Y chains; frames B start with Z=0, with and without N=1",
 			"large abandoned fragments: a fragmented unit / OBU of 70 KB, 1 MiB + 1 KB and 3 MB whose end (or start, or one middle fragment) is lost, at MTU 1200, followed by each frame-B shape; for H264 also abandoned units that leave 2^16..2^22 minus {0,1,600,1197,1199} bytes buffered, followed by a frame B with full-size fragments",
 			"ALL loss subsets of A (2^n, n <= 10) delivered in order; thorough: a second damaged frame (H264 shapes 3, s2, E; the first three packets of three AV1 shapes) behind the first, the loss subsets running over both (n <= 13), and garbage prefixes also for frames of up to 8 packets; garbage: every sequence of up to 2 strings before frame A and 0-1 string between the delivered part of A and frame B, from an 8 (H264) / 12 (AV1) string corpus (nil, empty, orphan fragments, truncated aggregation, start of a never-finished fragment)",
@@ -72,7 +72,7 @@ func c15H264Frame(shape string, seed int) [][]byte {
 
 var (
 	c15H264A = []string{"2", "3", "5", "s3", "3s", "a4", "23", "32s", "s2a2", "334", "6s3", "a22s2", "E", "M2", "X2"}
-	c15H264B = []string{"s", "a", "3", "2s", "as3", "E", "M", "Z", "sE", "X", "Xs"}
+	c15H264B = []string{"s", "a", "3", "2s", "as3", "E", "M", "Z", "sE", "X", "Xs", "="}
 )
 
 type c15Depack interface {
@@ -142,6 +142,10 @@ func c15H264(c *mc.Ctx) {
 	b := mc.From(c, c15H264B)
 	frameA := c15H264Frame(a, 1)
 	frameB := c15H264Frame(b, 2)
+	if b == "=" {
+		// the intact frame is the damaged one sent again, byte for byte
+		frameB = c15H264Frame(a, 1)
+	}
 	if c.Thorough() {
 		// a second damaged frame behind the first: the loss subsets run over both
 		a2 := mc.From(c, []string{"", "3", "s2", "E"})
@@ -195,7 +199,7 @@ func c15AV1Shapes() []c15AV1Shape {
 func c15AV1(c *mc.Ctx) {
 	shapes := c15AV1Shapes()
 	ai := c.Pick(len(shapes))
-	bi := c.Pick(4)
+	bi := c.Pick(5)
 	sa := shapes[ai]
 	frameA := cloneAll((&codecs.AV1Payloader{}).Payload(uint16(sa.mtu), ref.AV1Stream(sa.obus, false)))
 	if len(frameA) > 10 {
@@ -206,6 +210,9 @@ func c15AV1(c *mc.Ctx) {
 		{200, []ref.OBU{{Type: 1, Payload: fill(3, 0x52)}, {Type: 6, Payload: fill(9, 0x53)}}}, // N=1
 		{200, []ref.OBU{{Type: 6, Payload: fill(5, 0x54)}, {Type: 6, Payload: fill(5, 0x55)}}},
 		{5, []ref.OBU{{Type: 1, Payload: fill(2, 0x56)}, {Type: 6, Payload: fill(11, 0x57)}}}, // N=1 and fragments
+	}
+	if bi == 4 {
+		bShapes = append(bShapes, sa) // the intact frame is the damaged one sent again
 	}
 	sb := bShapes[bi]
 	frameB := cloneAll((&codecs.AV1Payloader{}).Payload(uint16(sb.mtu), ref.AV1Stream(sb.obus, false)))
